@@ -76,8 +76,18 @@ func vTapNotifier(n *eventnotifier.EventNotifier, size int) chan eventmon.EventV
 	f := v.FieldByName("transmitChannels")
 	m := reflect.NewAt(f.Type(), unsafe.Pointer(f.UnsafeAddr())).Elem()
 	var send chan<- eventmon.EventV0 = tap
+	// whatever the subscribers are keyed by: the tap takes a key of its own
+	var key reflect.Value
+	switch f.Type().Key().Kind() {
+	case reflect.String:
+		key = reflect.ValueOf("verif-harness-tap").Convert(f.Type().Key())
+	case reflect.Int, reflect.Int64, reflect.Uint64, reflect.Uint, reflect.Int32, reflect.Uint32:
+		key = reflect.ValueOf(1 << 30).Convert(f.Type().Key())
+	default:
+		key = reflect.ValueOf(send)
+	}
 	lock.Lock()
-	m.SetMapIndex(reflect.ValueOf(send), reflect.ValueOf(send))
+	m.SetMapIndex(key, reflect.ValueOf(send))
 	lock.Unlock()
 	return tap
 }
